@@ -224,7 +224,7 @@ theorem finish_same (s : Model.SR ℝ) (o : Js.Obj ℝ) (h : ParamSame s o) :
     constructor <;> first
       | exact h.name | exact h.ellps | exact h.units | exact h.nadgrids | exact h.axis | exact h.rf | exact h.lat0
       | exact h.lat1 | exact h.lat2 | exact h.latts | exact h.long0 | exact h.x0 | exact h.y0 | exact h.k0 | exact h.a
-      | exact h.b | exact h.zone | exact h.fg | exact h.tm | exact h.dp | exact h.ra | exact h.south
+      | exact h.b | exact h.zone | exact h.fg | exact h.tm | exact h.dp | exact h.ra | exact h.south | exact h.kk | exact h.czech
       | (show o.datumCode.getD "" = s.datumCode.toLower; rw [hd, ← hdc, hl]; rfl)
   | some dc =>
     rw [hd] at hdc
@@ -239,7 +239,7 @@ theorem finish_same (s : Model.SR ℝ) (o : Js.Obj ℝ) (h : ParamSame s o) :
       constructor <;> first
         | exact h.name | exact h.ellps | exact h.units | exact h.nadgrids | exact h.axis | exact h.rf | exact h.lat0
         | exact h.lat1 | exact h.lat2 | exact h.latts | exact h.long0 | exact h.x0 | exact h.y0 | exact h.k0 | exact h.a
-        | exact h.b | exact h.zone | exact h.fg | exact h.tm | exact h.dp | exact h.ra | exact h.south
+        | exact h.b | exact h.zone | exact h.fg | exact h.tm | exact h.dp | exact h.ra | exact h.south | exact h.kk | exact h.czech
         | rfl
 
 /-- the parts of a definition as the port's loop sees them (`strings.Split(defData, "+")` without the first piece) -/
